@@ -15,7 +15,8 @@ RULE = ('cases = (a) header lists with duplicates (case variants) through rename
         'and malformed text; non-trivial = duplicates present / a value changes / a cell needs quoting; distinct = digest'
         '; round 4: extract_missing_values (sources, target name) x cast strategies on files with sentinel cells'
         "; round 7: '%' in headers with the de-duplication format, limit_rows over a counting source together with cast_schema (the source is read no further than the limit needs)"
-        '; round 8: load((descriptor, resources)) over the live stream of flows with duplicate/join/concatenate/dumpers x selections that skip resources; a custom on_error that answers per field')
+        '; round 8: load((descriptor, resources)) over the live stream of flows with duplicate/join/concatenate/dumpers x selections that skip resources; a custom on_error that answers per field'
+        '; round 9: the bare name datapackage.json loaded from inside the package directory; override_schema together with override_fields')
 TRUSTED = ['Coq 8.16.1 kernel + vm_compute', 'harness/p13.py printers and oracle',
            'tabulator (third party) reads the file: dialect sniffing and type inference are outside the model; its deviations are findings',
            'Python csv.reader/csv.writer are the reference the CSV model is compared with']
